@@ -483,7 +483,7 @@ def align_tensors_model(*args, **kwargs):
         def get(idx, x=x, old=old):
             return x.data.get(tuple(idx[names.index(o)] for o in old) + tuple(idx[len(names):]))
 
-        out.append(SArr(shape, get) if old != names or True else x.data)
+        out.append(SArr(shape, get, x.data.dtype))
     return inputs, out
 
 
@@ -877,17 +877,18 @@ class TensorEagerSubsAdvanced(Contract):
         ("value dims laid out in the value's own order", "                        v_shape[new_dims[k2]] = size", "                        v_shape[list(v.inputs).index(k2) - len(v.inputs) - len(self.output.shape)] = size"),
         ("preserved input placed one dim off", "                offset_from_right = -1 - new_dims[k]", "                offset_from_right = -new_dims[k]"),
         ("values aligned by position instead of by name", "                    v = v.align(tuple(k2 for k2 in inputs if k2 in v.inputs))", "                    v = v"),
+        ("boolean value data used as a mask (pinned-tree behaviour)", "index.append(_as_index(v.data).reshape(tuple(v_shape)))", "index.append(v.data.reshape(tuple(v_shape)))"),
     )
 
     VALS = ["", "a", "b", "c", "ca", "ac", "cd"]
 
     def structures(self, tier):
         for names in ("a", "ab"):
-            kinds = ["-", "num"] + ["ten:" + v for v in self.VALS]
+            kinds = ["-", "num"] + ["ten:" + v for v in self.VALS] + ["bool:c", "bool:"]
             for ks in itertools.product(kinds, repeat=len(names)):
                 if all(k == "-" for k in ks):
                     continue
-                if tier == "quick" and len(names) == 2 and sum(len(k) for k in ks if k.startswith("ten:")) > 10:
+                if tier == "quick" and len(names) == 2 and sum(len(k) for k in ks if k.startswith(("ten:", "bool:"))) > 10:
                     continue
                 for e in (0, 1):
                     yield "inputs=%s,subs=%s,event=%d" % (names, ",".join(ks), e), (names, ks, e)
@@ -941,7 +942,9 @@ class TensorEagerSubsAdvanced(Contract):
                 p.assume(And(0 <= v, v < ksz))
                 val = NumberM(v, ksz)
             else:
-                vn = k[4:]
+                vn = k.split(":")[1]
+                if k.startswith("bool:"):
+                    p.assume(ksz == 2)  # a boolean array is the data of a Bint[2]-valued tensor
                 F = z3.Function("V_%s!%d" % (nm, next(p.counter)), *([z3.IntSort()] * len(vn) + [z3.IntSort()]))
 
                 def vget(idx, F=F, ksz=ksz, vn=vn):
@@ -953,13 +956,14 @@ class TensorEagerSubsAdvanced(Contract):
                 val.inputs = OrderedDict((n, MDom(csize(n), ())) for n in vn)
                 val.output = MDom(ksz, ())
                 val.dtype = ksz
-                val.data = SArr(tuple(csize(n) for n in vn), vget, "int")
+                val.data = SArr(tuple(csize(n) for n in vn), vget, "bool" if k.startswith("bool:") else "int")
             subs.append((nm, val))
             vals[nm] = val
         from collections import Counter
         from .c_terms import SliceM, VariableM
 
-        ns = dict(TENSOR_NS, Tensor=TensorM, Variable=VariableM, Slice=SliceM, Counter=Counter, to_funsor=lambda v, d=None: v, enumerate=enumerate, any=core.sany, slice=slice, list=list, tuple=tuple, zip=zip, len=len, int=lambda v: v)
+        as_index, _ = core.make_callable(core.locate("funsor/tensor.py", "_as_index"), dict(ops=OpsArrayNS, str=str))
+        ns = dict(TENSOR_NS, Tensor=TensorM, Variable=VariableM, Slice=SliceM, Counter=Counter, to_funsor=lambda v, d=None: v, enumerate=enumerate, any=core.sany, slice=slice, list=list, tuple=tuple, zip=zip, len=len, int=lambda v: v, _as_index=as_index)
         return Ctx(args=(x, tuple(subs)), namespace=ns, x=x, vals=vals, cs=cs, bsz=bsz, es=tuple(es), st=st, p=p)
 
     def ensures(self, ctx, result):
@@ -968,7 +972,7 @@ class TensorEagerSubsAdvanced(Contract):
             return [("returns_tensor", False)]
         exp = []
         for nm, k in zip(names, ks):
-            for n in ([nm] if k == "-" else ([] if k == "num" else list(k[4:]))):
+            for n in ([nm] if k == "-" else ([] if k == "num" else list(k.split(":")[1]))):
                 if n not in exp:
                     exp.append(n)
         shape = tuple(ctx.cs[n] for n in exp) + ctx.es
@@ -983,7 +987,7 @@ class TensorEagerSubsAdvanced(Contract):
                 elif k == "num":
                     coords.append(ctx.vals[nm].data)
                 else:
-                    coords.append(ctx.vals[nm].data.get(tuple(b[n] for n in k[4:])))
+                    coords.append(ctx.vals[nm].data.get(tuple(b[n] for n in k.split(":")[1])))
             cl.append(("simultaneous_substitution_at_every_index", Implies(in_range(idx, shape), result.data.get(idx) == ctx.x.data.get(tuple(coords) + tuple(idx[len(exp):])))))
         return cl
 
@@ -1783,7 +1787,7 @@ class EagerGetitemTensorTensor(Contract):
     file = "funsor/tensor.py"
     qualname = "eager_getitem_tensor_tensor"
     max_paths = 4000
-    mutants = (("operands with the same names in another order used positionally", "    if lhs.inputs == rhs.inputs:\n        inputs, lhs_data, rhs_data = lhs.inputs, lhs.data, rhs.data", "    if lhs.inputs.keys() == rhs.inputs.keys():\n        inputs, lhs_data, rhs_data = lhs.inputs, lhs.data, rhs.data"), ("index placed at the batch offset", "target_dim = lhs_data_dim - len(lhs.output.shape) + offset", "target_dim = offset"))
+    mutants = (("operands with the same names in another order used positionally", "    if lhs.inputs == rhs.inputs:\n        inputs, lhs_data, rhs_data = lhs.inputs, lhs.data, rhs.data", "    if lhs.inputs.keys() == rhs.inputs.keys():\n        inputs, lhs_data, rhs_data = lhs.inputs, lhs.data, rhs.data"), ("index placed at the batch offset", "target_dim = lhs_data_dim - len(lhs.output.shape) + offset", "target_dim = offset"), ("boolean index data used as a mask (pinned-tree behaviour)", "    rhs_data = _as_index(rhs_data)\n", ""))
 
     def structures(self, tier):
         pool = ["", "a", "ab", "ba", "b"]
@@ -1791,11 +1795,15 @@ class EagerGetitemTensorTensor(Contract):
             for rn in pool:
                 for e in (1, 2):
                     for off in range(e):
-                        yield "x=%s/%d,y=%s,offset=%d" % (ln or "-", e, rn or "-", off), (ln, rn, e, off)
+                        yield "x=%s/%d,y=%s,offset=%d" % (ln or "-", e, rn or "-", off), (ln, rn, e, off, "int")
+        for ln, rn in [("a", "a"), ("a", ""), ("", "b"), ("ab", "ba")]:
+            yield "x=%s/1,y=%s,offset=0,boolean index data" % (ln or "-", rn or "-"), (ln, rn, 1, 0, "bool")
 
     def build(self, p, st):
-        ln, rn, e, off = st
+        ln, rn, e, off, ydt = st
         x, xbs, xes = mk_tensor(p, tuple(ln), e, "X")
+        if ydt == "bool":
+            p.assume(xes[off] == 2)  # a boolean array is the data of a Bint[2]-valued index
         ysz = []
         y = TensorM.__new__(TensorM)
         ybs = {}
@@ -1816,8 +1824,9 @@ class EagerGetitemTensorTensor(Contract):
         y.inputs = OrderedDict((n, MDom(ybs[n], ())) for n in rn)
         y.output = MDom(xes[off], ())
         y.dtype = xes[off]
-        y.data = SArr(tuple(ybs[n] for n in rn), yget, "int")
-        ns = dict(TENSOR_NS, align_tensors=align_tensors_model, Bint=M.Bint, range=range, len=len, list=list, tuple=tuple)
+        y.data = SArr(tuple(ybs[n] for n in rn), yget, ydt)
+        as_index, _ = core.make_callable(core.locate("funsor/tensor.py", "_as_index"), dict(ops=OpsArrayNS, str=str))
+        ns = dict(TENSOR_NS, align_tensors=align_tensors_model, Bint=M.Bint, range=range, len=len, list=list, tuple=tuple, _as_index=as_index)
         return Ctx(args=(GetOp(offset=off), x, y), namespace=ns, x=x, y=y, xbs=xbs, ybs=ybs, xes=xes, st=st, p=p)
 
     def may_raise(self, ctx, etype):
@@ -1826,7 +1835,7 @@ class EagerGetitemTensorTensor(Contract):
     total = True
 
     def ensures(self, ctx, result):
-        ln, rn, e, off = ctx.st
+        ln, rn, e, off, ydt = ctx.st
         if not isinstance(result, TensorM):
             return [("returns_tensor", False)]
         names = list(ln) + [n for n in rn if n not in ln]
